@@ -33,7 +33,7 @@ ASSUMPTIONS = [
     "names removed by a mutation are not reused by another entry of a different type in the same case",
 ]
 BUDGET = {"quick": (220, 4), "thorough": (20000, 16)}
-REQUIRED = ["unchanged", "altered", "missing_file", "missing_dir", "new_file", "nested_mutation", "combined", "ignored_only", "per_file_enum", "trailing_slash_root"]
+REQUIRED = ["unchanged", "altered", "missing_file", "missing_dir", "new_file", "nested_mutation", "combined", "ignored_only", "per_file_enum", "trailing_slash_root", "big_file_tail_altered"]
 
 P1 = {
     "kinds": ["create"] * 5 + ["create_sf"] * 2 + ["put_new"] * 3 + ["mkdir"],
@@ -56,6 +56,9 @@ def _scn(draw):
             scn["tree"][base] = {"in.mov": "inside " + base}
             scn["tree"][sib] = {"next.mov": "beside " + base, "sub": {"deeper.mov": "x"}}
             scn["steps"] = [{"op": "create", "root": base, "formats": draw(gen.formats(2)), "flags": []}] + scn["steps"]
+    if draw(st.integers(0, 5)) == 0 and "big.bin" not in hist.top_names_used(scn):
+        scn["tree"]["big.bin"] = ["a55a17", (1 << 20) + draw(st.integers(1, 200000))]
+        scn["big"] = True
     scn["steps"].append({"op": "create", "root": "", "formats": draw(gen.formats(3)), "flags": []})
     m = hist.GenModel(scn["tree"])
     for s in scn["steps"]:
@@ -63,6 +66,10 @@ def _scn(draw):
     n = draw(st.sampled_from([0, 1, 1, 1, 1, 2, 3, 4]))
     muts = []
     used = set()
+    if scn.get("big") and draw(st.booleans()):
+        # only bytes behind the first MiB change
+        muts.append({"kind": draw(st.sampled_from(["append", "truncate", "flip_last"])), "path": "big.bin", "salt": 7})
+        used.add("big.bin")
     for i in range(n):
         kind = draw(st.sampled_from(MUT))
         files = [f for f in sorted(m.files) if f not in used]
@@ -246,9 +253,12 @@ def run_case(scn, ctx):
             k = mu["kind"]
             P = lambda p: hist.wpath(scn, p)
             touched = P(mu.get("path") or mu.get("src"))
-            if k in ("overwrite_same", "overwrite_diff", "append", "truncate", "empty"):
+            if k in ("overwrite_same", "overwrite_diff", "append", "truncate", "empty", "flip_last"):
                 old = w.files[touched]
-                if k == "empty":
+                if k == "flip_last":
+                    new = old[:-1] + bytes([old[-1] ^ 0x40])
+                    ctx.event("big_file_tail_altered")
+                elif k == "empty":
                     new = b"" if old else b"no longer empty"
                 elif k == "overwrite_same":
                     new = bytes((b ^ (mu["salt"] | 1)) for b in old) if old else b"\x01"
